@@ -1,6 +1,7 @@
 package main
 
 import (
+	"verif.local/mc/harness/c04"
 	"verif.local/mc/harness/c02"
 	"verif.local/mc/harness/c03"
 	"verif.local/mc/harness/c06"
@@ -17,6 +18,9 @@ import (
 )
 
 func init() {
+	register("C04", "exploration", c04.Run04)
+	register("C11", "exploration", c04.Run11)
+	register("C16", "exploration", c04.Run16)
 	register("C02", "exploration", c02.Run)
 	register("C03", "exploration", c03.Run)
 	register("C06", "exploration", c06.Run)
